@@ -94,7 +94,7 @@ Definition validate_solver (c : config) : result :=
    backend does not have still yields a function); true = the code with
    /verif/fixes/proposed_fix_C20_solver_in_get_run_func.diff (the backend's _validate_solver is called after the
    compilation of the graph, before the function is generated). *)
-Definition fixed_F6 : bool := false.
+Definition fixed_F6 : bool := true.
 Definition entry_solver_check (f6 : bool) (c : config) : result :=
   if f6 && negb (entry_eqb (en c) ERun) then validate_solver c else Ok.
 (* the guards alone *)
@@ -564,15 +564,18 @@ Definition option_requested (k : optkind) (v : optval) : option string :=
   end.
 
 (* a model with one plain `delay` edge and one `delay`+`spread` edge from two different source variables
-   (`first_plain`: the plain-delay edge is processed first).  Not vectorized: one ring buffer in the network is enough
-   for `_uses_edge_delay_buffer`, so the guards treat it like DDiscrete.  Vectorized: the two edges are merged into one
-   edge group that carries a spread, and the whole group is compiled to gamma-kernel chains (no ring buffer): the
-   guards treat it like DSpread.  (That the vectorized and the non-vectorized compilation of this model differ is C04's
-   subject, not C20's.) *)
-Definition mixed_config (b : backend) (s : solver) (v : bool) (e : entry) : config :=
-  mkc b s v (if v then DSpread else DDiscrete) false true e.
+   (`first_plain`: the plain-delay edge is processed first).  One ring buffer in the network is enough for
+   `_uses_edge_delay_buffer`, so the guards treat it like DDiscrete, vectorized or not (since D114 the plain delay keeps
+   its ring buffer also when vectorization merges it into one edge group with the spread edge). *)
+Definition mixed_config (b : backend) (s : solver) (v : bool) (e : entry) : config := mkc b s v DDiscrete false true e.
+(* loud downstream failure of this probe model on the current tree (class EOther, not a guard): vectorized, with an
+   adaptive solver the backend has (history path), the generated function fails at its first call in `run` and
+   get_run_func ("Function to integrate must not return a tuple", shape errors) — except on torch when the plain-delay
+   edge is processed first *)
+Definition mixed_vec_crash (b : backend) (s : solver) (v : bool) (first_plain : bool) (e : entry) : bool :=
+  v && is_integration_adaptive s && negb (entry_eqb e EJac) && negb (backend_eqb b BTorch && first_plain).
 Definition mixed_outcome (b : backend) (s : solver) (v : bool) (first_plain : bool) (e : entry) : result :=
-  outcome (mixed_config b s v e).
+  andthen (outcome (mixed_config b s v e)) (crash (mixed_vec_crash b s v first_plain e)).
 
 (* the same mixture through the PopulationTemplate / Connectivity API (NetworkGraph._add_matrix_delay): one population
    projecting onto itself through a plain-delay matrix connection and a delay+spread one, in either order.  The
@@ -581,7 +584,9 @@ Definition mixed_outcome (b : backend) (s : solver) (v : bool) (first_plain : bo
 Definition pop_config (b : backend) (s : solver) (v : bool) (e : entry) : config := mkc b s v DDiscrete false true e.
 Definition pop_outcome (b : backend) (s : solver) (v : bool) (first_plain : bool) (e : entry) : result :=
   andthen (validate_backend_args (pop_config b s v e))
-          (if backend_eqb b BFortran then Err EOther else accepts (pop_config b s v e)).
+          (if backend_eqb b BFortran
+           then andthen (entry_solver_check fixed_F6 (pop_config b s v e)) (Err EOther)   (* refused before f2py is reached *)
+           else accepts (pop_config b s v e)).
 
 Inductive probe :=
   | PConfig (c : config)
